@@ -359,6 +359,14 @@ pub fn build(p: &P) -> Cmd {
                 });
             });
         }),
+        P::JoinBusy(s, m) => Command::new(move |ctx| async move {
+            let jh = ctx.spawn(move |ctx| async move {
+                let v = areq(&ctx, s, 0).await;
+                ctx.send_event(Event::got(s, v));
+            });
+            futures::join!(jh, SelfWake(40));
+            ctx.send_event(Event::mark(m, 0));
+        }),
         P::JoinTwice(s, m) => Command::new(move |ctx| async move {
             let jh = ctx.spawn(move |ctx| async move {
                 let v = areq(&ctx, s, 0).await;
